@@ -3540,7 +3540,8 @@ void space_text()
 
       if (  (options::use_options_overriding_for_qt_macros())
          && (  (strcmp(pc->Text(), "SIGNAL") == 0)
-            || (strcmp(pc->Text(), "SLOT") == 0)))
+            || (strcmp(pc->Text(), "SLOT") == 0))
+         && pc->GetNext()->IsParenOpen())                  // a bare word is not a use of the macro
       {
          LOG_FMT(LSPACE, "%s(%d): orig col is %zu, type is %s SIGNAL/SLOT found\n",
                  __func__, __LINE__, pc->GetOrigLine(), get_token_name(pc->GetType()));
